@@ -10,13 +10,6 @@ package types
 //@ invariant Func(f) = f.Fn != nil
 //@ invariant `func([]MalType) (MalType, error)`(f) = f != nil
 
-//@ func NewHashMap(seq) (r, e)
-//@   panics never
-//@   assigns nothing
-
-//@ func NewSet(seq) (r, e)
-//@   panics never
-//@   assigns nothing
 
 //@ func (*Position).Copy(p) (r)
 //@   panics never
@@ -116,3 +109,46 @@ package types
 //@ lemma eq_keyword_string(s string)
 //@   props C14
 //@   goal !EQdef(val(s), val("ʞ" + s)) && !EQdef(val(s), val(Symbol{Val: s}))
+
+// ---- constructors and predicates used by the builtins (C13) --------------------------
+// pairModel(r, a, i): r is a map built from the pairs a[0],a[1], a[2],a[3], ... below index i: its keys are
+// exactly the pair keys and every value is the value of a pair with that key (that the *last* such pair wins
+// is proved for assoc/conj, whose fold has the same shape, but was beyond the solvers here)
+//@ spec pairModel(r map[string]MalType, a []MalType, i int) bool = forallkey(k, has(r, k) == exists(j, 0, i, j % 2 == 0 && a[j] == val(k))) && forallkey(k, implies(has(r, k), exists(j, 0, i, j % 2 == 0 && a[j] == val(k) && r[k] == a[j+1])))
+//@ spec evenKeysAreStrings(a []MalType, i int) bool = forall(j, 0, i, implies(j % 2 == 0, is(a[j], string)))
+
+//@ func NewHashMap(seq) (r, e)
+//@   panics never
+//@   assigns nothing
+//@   ensures implies(e == nil, isSeq(seq) && len(elems(seq)) % 2 == 0 && is(r, HashMap) && fresh(r.(HashMap).Val) && evenKeysAreStrings(elems(seq), len(elems(seq))) && pairModel(r.(HashMap).Val, elems(seq), len(elems(seq))))
+//@   ensures implies(isSeq(seq) && len(elems(seq)) % 2 == 0 && evenKeysAreStrings(elems(seq), len(elems(seq))), e == nil)
+//@   ensures implies(!isSeq(seq) || len(elems(seq)) % 2 == 1, e != nil)
+//@   loop 1 invariant i % 2 == 0 && 0 <= i && i <= len(lst) && fresh(m) && evenKeysAreStrings(lst, i) && pairModel(m, lst, i)
+
+//@ func NewSet(seq) (r, e)
+//@   panics never
+//@   assigns nothing
+//@   ensures implies(seq == nil, e == nil && len(r.Val) == 0)
+//@   ensures implies(isSeq(seq) && forall(j, 0, len(elems(seq)), is(elems(seq)[j], string)), e == nil && forallkey(k, has(r.Val, k) == exists(j, 0, len(elems(seq)), elems(seq)[j] == val(k))))
+//@   ensures implies(seq != nil && !isSeq(seq), e != nil)
+//@   ensures implies(isSeq(seq) && exists(j, 0, len(elems(seq)), !is(elems(seq)[j], string)), e != nil)
+//@   loop 1 invariant fresh(m) && forall(j, 0, rangeindex + 1, is(lst[j], string)) && forallkey(k, has(m, k) == exists(j, 0, rangeindex + 1, lst[j] == val(k)))
+
+//@ func Nil_Q(obj) (r)
+//@   pure
+//@   ensures r == (obj == nil)
+//@ func True_Q(obj) (r)
+//@   pure
+//@   ensures r == (is(obj, bool) && obj.(bool))
+//@ func False_Q(obj) (r)
+//@   pure
+//@   ensures r == (is(obj, bool) && !obj.(bool))
+//@ func Keyword_Q(obj) (r)
+//@   pure
+//@   ensures r == (is(obj, string) && prefix("ʞ", obj.(string)))
+//@ func String_Q(obj) (r)
+//@   pure
+//@   ensures r == (is(obj, string) && !prefix("ʞ", obj.(string)))
+//@ func NewKeyword(s) (r)
+//@   pure
+//@   ensures r == "ʞ" + s
